@@ -27,6 +27,8 @@ Record site := mkSite {
   s_operand : string; s_keyT : string; s_valT : string;
   s_class : rclass;
   s_targets : list string;    (* maps written / slices appended to *)
+  s_sorts : list string;      (* the sort.* calls that order the targets later in the function, verbatim
+                                 (comparator included): the order a site theorem assumes is pinned in the table *)
   s_why : string }.
 
 Record nduse := mkNd { n_kind : string; n_pkg : string; n_file : string; n_func : string; n_line : nat }.
@@ -106,6 +108,12 @@ Definition site_generateAPIKeyClients_out (hash : string -> string) (l : list (s
 (* tree with fixes/F13.diff: sort.Slice(clients, ClientID <) after the loop *)
 Definition site_generateAPIKeyClients_fixed_out (hash : string -> string) (l : list (string * string))
   : list (string * string) := isort fst (map (api_client hash) l).
+
+(* a tree whose sort compares a NORMALISED client id (e.g. strings.ToLower): the comparator is then a
+   strict total order on the keys only if [norm] is injective on them *)
+Definition site_generateAPIKeyClients_normalised_out (norm : string -> string) (hash : string -> string)
+  (l : list (string * string)) : list (string * string) :=
+  isort (fun c => norm (fst c)) (map (api_client hash) l).
 
 (* virtualserver.go GenerateVirtualServerConfig #0: for mapName, clients := range ClientMap
    { maps = append(maps, gen mapName clients) } ; later removeDuplicateMaps(maps) keeps the first
@@ -229,3 +237,39 @@ Fixpoint list_eqb (a b : list string) : bool :=
   end.
 Definition all_equal (obs : list (list string)) : bool :=
   match obs with [] => true | o :: rest => forallb (list_eqb o) rest end.
+
+(* ------------------------------------------------------------------ history: generation must not write
+   into its inputs.  One rendering of a master/minion pair: the minion's effective annotations are
+   its own plus the inheritable ones of the master, minus the denied ones.  [inplace = false] is the
+   code as it stands (the minion Ingress is deep-copied first, the stored object is left alone);
+   [inplace = true] is a generator that edits the stored minion. *)
+Definition effective_minion (allowed deny : string -> bool) (master minion : smap string) : smap string :=
+  site_filterAnnotations_map_out deny
+    (site_mergeMasterAnnotationsIntoMinion_out allowed minion master)
+    (site_mergeMasterAnnotationsIntoMinion_out allowed minion master).
+
+(* (what is rendered, what the store holds afterwards) *)
+Definition render_minion (inplace : bool) (allowed deny : string -> bool) (master minion : smap string)
+  : smap string * smap string :=
+  let eff := effective_minion allowed deny master minion in
+  (eff, if inplace then eff else minion).
+
+(* a history of master versions rendered one after the other against the same stored minion:
+   the rendering of the last one *)
+Fixpoint render_history (inplace : bool) (allowed deny : string -> bool) (masters : list (smap string))
+  (minion : smap string) (last : smap string) : smap string :=
+  match masters with
+  | [] => last
+  | m :: rest =>
+      let r := render_minion inplace allowed deny m minion in
+      render_history inplace allowed deny rest (snd r) (fst r)
+  end.
+
+(* generic form: a generator with a mutable part [S] of its inputs *)
+Fixpoint run_history {S I O} (step : S -> I -> S * O) (s : S) (h : list I) : S :=
+  match h with [] => s | i :: r => run_history step (fst (step s i)) r end.
+
+(* S for the history family: the files for input B rendered after input A equal those of B rendered
+   by a fresh configurator, and no input object was written to *)
+Definition history_ok (b_after_a b_fresh : list (string * string)) (mutated : nat) : bool :=
+  files_eqb b_after_a b_fresh && Nat.eqb mutated 0.
